@@ -1175,8 +1175,8 @@ def run(ctx) -> None:
     strata = [(i, r, sc) for i in range(5) for r in range(5) for sc in (False, True)]
     # per stratum: plain / negative answers / corrupted PDU / reconnection
     per = {
-        'plain': ctx.n(10, 32000 // 50), 'negative': ctx.n(12, 24000 // 50),
-        'fault': ctx.n(9, 16000 // 50), 'reconnect': ctx.n(7, 12000 // 50),
+        'plain': ctx.n(10, 24000 // 50), 'negative': ctx.n(12, 18000 // 50),
+        'fault': ctx.n(9, 12000 // 50), 'reconnect': ctx.n(7, 8000 // 50),
     }
     digests: list = []
     for k, (io_c, io_p, sc) in enumerate(strata):
